@@ -228,7 +228,10 @@ def check(run: Run) -> None:
         # every value the local can take is one of the three literals
         for nnode in walk_no_nested(fi.node):
             if isinstance(nnode, ast.Assign) and any(isinstance(t, ast.Name) and t.id == "validation_status" for t in nnode.targets):
-                ok = isinstance(nnode.value, ast.Constant) and nnode.value.value in STATUSES
+                def lit(v: ast.AST) -> bool:
+                    # one of the three literals, or a conditional expression between such
+                    return (isinstance(v, ast.Constant) and v.value in STATUSES) or (isinstance(v, ast.IfExp) and lit(v.body) and lit(v.orelse))
+                ok = lit(nnode.value)
                 run.instance("R10.2", fi.module.loc(nnode), f"{qual}: validation_status = {norm(nnode.value)}", ok=ok)
                 if not ok:
                     run.violation("R10.2", fi.module, qual, nnode, "validation_status is assigned something other than one of the three literals")
